@@ -24,6 +24,13 @@ def gen_specs(pid, tier, seed, n_gen, n_corpus, nopt, symbolic=False):
         r = common.rng(pid, "spec", seed, i)
         specs.append({"kind": "gen", "i": i, "seed": seed, "opset": r.choice([13, 15, 17, 18, 18, 20, 21, 22]),
                       "n_nodes": r.choice([3, 6, 10, 16, 25, 40]), "nopt": nopt})
+    # legacy-opset stratum (appended, so the specs above do not change): old exporters' models, where operators still have
+    # their pre-13 signatures (axes/split/ratio as attributes, Dropout masks of the data type, no ConstantOfShape before 9)
+    for j in range(n_gen // 10):
+        i = n_gen + j
+        r = common.rng(pid, "spec-legacy", seed, j)
+        specs.append({"kind": "gen", "i": i, "seed": seed, "opset": [7, 8, 9, 10, 11, 12][j % 6],
+                      "n_nodes": r.choice([3, 6, 10, 16]), "nopt": nopt, "legacy": True})
     if n_corpus:
         dirs = corpus_dirs()
         r = common.rng(pid, "corpus", seed)
@@ -228,7 +235,10 @@ def opt_case(spec, pid):
     expected = None
     if spec["kind"] == "gen":
         try:
-            m, info = modelgen.generate(rng, opset=spec["opset"], n_nodes=spec["n_nodes"], symbolic=False)
+            table = None
+            if spec.get("legacy"):
+                table = modelgen.BASIC_OPS + modelgen.MOTIFS + modelgen.CONTROL + modelgen.LEGACY_EXTRA
+            m, info = modelgen.generate(rng, opset=spec["opset"], n_nodes=spec["n_nodes"], symbolic=False, table=table)
         except modelgen.Bail:
             res["status"] = "discarded_gen"
             return res
